@@ -96,13 +96,71 @@ func init() {
 			}
 		}
 		sort.Strings(callers)
+		// LockingStreamer.Read must leave the idle timer alone (it only records the last-read time)
+		readTimerCalls, readFound := 0, false
+		if fd := x.Func("snapshot", "LockingStreamer", "Read"); fd != nil {
+			readFound = true
+			ast.Inspect(fd.Body, func(n ast.Node) bool {
+				if c, ok := n.(*ast.CallExpr); ok && strings.Contains(x.Src(c.Fun), "timer") {
+					readTimerCalls++
+				}
+				return true
+			})
+		}
 		x.Comment("snapshot/store.go lock brackets")
+		x.DefBool("streamerReadFound", readFound)
+		x.Raw("def streamerReadTimerCalls : Nat := " + itoa(readTimerCalls))
 		x.DefBool("reapTakesWriteLockFirstAndDefersRelease", reapBracket)
 		x.DefBool("reapLoopBracketsReapWithBlockingWriteLock", loopBracket)
 		x.DefBool("openTakesReadLockFirst", openFirst)
 		x.DefBool("openReleasesReadLockOnlyOnError", openEndOnlyOnErr)
 		x.DefBool("openHandsLockToLockingStreamer", openHandsOver)
 		x.DefStrings("reapCallers", callers)
+
+		// C31: every user of the store's snapshot gate takes it itself, unconditionally
+		var gateSites, ownerReads []string
+		for _, f := range x.Pkg("store") {
+			for _, d := range f.Decls {
+				fd, ok := d.(*ast.FuncDecl)
+				if !ok || fd.Body == nil {
+					continue
+				}
+				var stack []ast.Node
+				ast.Inspect(fd.Body, func(n ast.Node) bool {
+					if n == nil {
+						stack = stack[:len(stack)-1]
+						return true
+					}
+					if c, ok := n.(*ast.CallExpr); ok {
+						src := x.Src(c.Fun)
+						if src == "s.snapshotCAS.Begin" || src == "s.snapshotCAS.BeginWithRetry" {
+							cond := false
+							for _, a := range stack {
+								if is, ok := a.(*ast.IfStmt); ok && is.Cond != nil && strings.Contains(x.Src(is.Cond), "snapshotCAS") {
+									// the acquiring `if err := ...Begin(); err != nil` itself has the call in Init, not in Cond
+									cond = true
+								}
+							}
+							owner := ""
+							if len(c.Args) > 0 {
+								owner = x.Src(c.Args[0])
+							}
+							gateSites = append(gateSites, fd.Name.Name+":"+strings.TrimPrefix(src, "s.snapshotCAS.")+":"+owner+":conditional="+boolStr(cond))
+						}
+						if src == "s.snapshotCAS.Owner" {
+							ownerReads = append(ownerReads, fd.Name.Name)
+						}
+					}
+					stack = append(stack, n)
+					return true
+				})
+			}
+		}
+		sort.Strings(gateSites)
+		sort.Strings(ownerReads)
+		x.Comment("store/: every acquisition of s.snapshotCAS (function:call:owner:conditional on the gate's state?) and every reader of its owner")
+		x.DefStrings("gateAcquisitions", gateSites)
+		x.DefStrings("gateOwnerReaders", ownerReads)
 
 		// C31: contents of the BeginWithRetry loop
 		var loop []string
@@ -131,3 +189,10 @@ func init() {
 	})
 }
 
+
+func boolStr(b bool) string {
+	if b {
+		return "true"
+	}
+	return "false"
+}
